@@ -14,7 +14,7 @@ def run(chk):
     chk.trusted_base = TRUSTED
     chk.rule = ("op cells: reported safety radius >= 2 * exact farthest-vertex distance (active subspace) and >= distance to every neighbour with a face; "
                 "op addfar: a cell before/after adding generators outside its safety ball must be unchanged; non-trivial = cell with >= 1 neighbour face")
-    chk.lean(['MVoro.Props.C16', 'MVoro.Proofs.VorSet'], [], [])
+    chk.lean(['MVoro.Props.C16', 'MVoro.Proofs.VorSet'], ['MVoro.Obl.VertexRadius', 'MVoro.Obl.BuildStep'], ['VertexRadius', 'BuildStep', 'Geom'])
     got = run_cells_op(chk, op='cells')
     if got is None:
         return
